@@ -27,6 +27,9 @@ def replay(case):
     task = cfg['task']
     x = np.array(exp['x'], dtype=float)
     y = np.array(exp['y'], dtype=float)
+    yim = np.array(exp['yim'], dtype=float)
+    if np.any(yim != 0):
+        y = y + 1j * yim
     m = x.shape[1]
     vals = leaf_values(exp['leaves'])
     psi = psi_from_leaves(vals)
